@@ -129,6 +129,8 @@ void
 mtbl_writer_options_set_block_restart_interval(struct mtbl_writer_options *opt,
 					       size_t block_restart_interval)
 {
+	if (block_restart_interval < MIN_BLOCK_RESTART_INTERVAL)
+		block_restart_interval = MIN_BLOCK_RESTART_INTERVAL;
 	opt->block_restart_interval = block_restart_interval;
 }
 
